@@ -438,6 +438,7 @@ pub fn unit_enum(n: usize, ra: Option<RenameAll>, rename_second: bool) -> EnumSp
         validate: false,
         concrete: false,
         same_err: false,
+        generic: false,
         variants: (0..n)
             .map(|i| VariantSpec {
                 ident: names[i].to_string(),
@@ -458,6 +459,7 @@ pub fn tagged_enum(tag: &str) -> EnumSpec {
         validate: false,
         concrete: false,
         same_err: false,
+        generic: false,
         variants: vec![
             VariantSpec { ident: "UnitV".into(), rename: None, rename_all: None, fields: None },
             VariantSpec {
@@ -747,6 +749,7 @@ fn group_d(cat: &mut Catalogue, tier: Tier) {
             validate: false,
             concrete: false,
             same_err: false,
+            generic: false,
             variants: vec![
                 VariantSpec { ident: "Leaf".into(), rename: None, rename_all: None, fields: None },
                 VariantSpec {
@@ -928,6 +931,40 @@ fn group_h(cat: &mut Catalogue, tier: Tier) {
                 cat.root(p(Ty::Item(i)), "H", format!("generic struct instantiated with {note}, {deny:?}"));
             }
         }
+        // const generics, two parameters with a where clause, a generic tagged enum
+        {
+            let mut s = st(vec![FieldSpec::plain("fa_x", pu8()), FieldSpec::plain("fb", pu8()), FieldSpec::plain("arr", p(Ty::Arr(Box::new(pu8()), 2)))]);
+            s.generic = true;
+            s.generic_kind = 1;
+            s.deny = Deny::Default;
+            let i = cat.add(Item::Struct(s.clone()));
+            cat.root(p(Ty::Item(i)), "H", "struct generic over a type and a const length");
+            s.fields[0].ty = p(Ty::Item(inner));
+            s.fields[2].ty = p(Ty::Arr(Box::new(pu8()), 0));
+            s.rename_all = Some(RenameAll::Camel);
+            let i = cat.add(Item::Struct(s));
+            cat.root(p(Ty::Item(i)), "H", "struct generic over a derived struct and the const length 0");
+            let mut s = st(vec![FieldSpec::plain("fa_x", opt(pu8())), FieldSpec::plain("many", p(vec_of(pu8()))), FieldSpec::plain("fc", pu8())]);
+            s.generic = true;
+            s.generic_kind = 2;
+            s.fields[2].default = DefaultSpec::Expr;
+            let i = cat.add(Item::Struct(s.clone()));
+            cat.root(p(Ty::Item(i)), "H", "struct generic over two types with a where clause");
+            s.fields[1].ty = p(vec_of(p(Ty::Item(inner))));
+            s.deny = Deny::Custom;
+            s.validate = true;
+            s.same_err = true;
+            let i = cat.add(Item::Struct(s));
+            cat.root(p(Ty::Item(i)), "H", "the same over Vec of a derived struct + custom deny + validate");
+            for (t, note) in [(pu8(), "P<u8>"), (p(Ty::Item(inner)), "derived struct"), (p(vec_of(opt(pu8()))), "Vec<Option>")] {
+                let mut e = tagged_enum("kind");
+                e.generic = true;
+                e.deny = Deny::Default;
+                e.variants[1].fields.as_mut().unwrap()[0].ty = t;
+                let i = cat.add(Item::Enum(e));
+                cat.root(p(Ty::Item(i)), "H", format!("generic tagged enum instantiated with {note}"));
+            }
+        }
         // the same generic shape inside a Vec inside a tagged variant
         let mut g = st(vec![FieldSpec::plain("fa_x", pu8()), FieldSpec::plain("fb", pu8())]);
         g.generic = true;
@@ -1049,6 +1086,32 @@ fn group_h(cat: &mut Catalogue, tier: Tier) {
         let i = cat.add(Item::Struct(s));
         cat.root(p(Ty::Item(i)), "H", format!("keys differing only by Unicode normalisation, {deny:?}"));
     }
+    // variants that share their field names but not their attributes
+    for deny in [Deny::No, Deny::Default] {
+        let mut e = tagged_enum("kind");
+        e.deny = deny;
+        {
+            let fs = e.variants[1].fields.as_mut().unwrap();
+            fs[0].rename = Some("x1".into());
+            fs[0].default = DefaultSpec::Expr;
+            fs[1].skip = true;
+        }
+        {
+            let fs = e.variants[2].fields.as_mut().unwrap();
+            fs.push(FieldSpec { default: DefaultSpec::Trait, map: true, ..FieldSpec::plain("fbCap", opt(pu8())) });
+        }
+        e.variants.push(VariantSpec {
+            ident: "ThirdV".into(),
+            rename: None,
+            rename_all: Some(RenameAll::Camel),
+            fields: Some(vec![
+                FieldSpec { conv: Conv::TryFrom { by_ref: false }, ..FieldSpec::plain("fa_x", pu8()) },
+                FieldSpec { missing_fn: true, ..FieldSpec::plain("fbCap", pu8()) },
+            ]),
+        });
+        let i = cat.add(Item::Enum(e));
+        cat.root(p(Ty::Item(i)), "H", format!("variants sharing field names with different attributes, {deny:?}"));
+    }
     // foreign errors from custom functions: nested, and next to a field-level error type
     {
         let mut inner = base3();
@@ -1076,6 +1139,47 @@ pub fn build(tier: Tier) -> Catalogue {
     group_f(&mut cat, tier);
     group_g(&mut cat, tier);
     group_h(&mut cat, tier);
+    cat
+}
+
+/// The *reduced* catalogue: the roots all of whose items still type-check if the derive ignored
+/// any one of their attributes (no conversions, no field-level or named error types, no generics,
+/// no foreign custom functions, no data-carrying enums — these need an attribute to compile at all).
+/// Used only when the full catalogue does not compile against the tree under test, so that a derive
+/// which rejects or mis-compiles *some* valid items can still be judged on the others.
+pub fn build_reduced(tier: Tier) -> Catalogue {
+    let mut cat = build(tier);
+    fn item_ok(cat: &Catalogue, i: usize, seen: &mut Vec<usize>) -> bool {
+        if seen.contains(&i) {
+            return true;
+        }
+        seen.push(i);
+        let field_ok = |f: &FieldSpec, cat: &Catalogue, seen: &mut Vec<usize>| -> bool {
+            f.conv == Conv::None && !f.err_b && !f.missing_foreign && ty_ok(cat, &f.ty, seen)
+        };
+        match &cat.items[i] {
+            Item::Struct(s) => {
+                !s.concrete && !s.generic && !s.same_err && s.deny != Deny::CustomForeign && s.fields.iter().all(|f| field_ok(f, cat, seen))
+            }
+            Item::Enum(e) => !e.concrete && !e.generic && !e.same_err && e.tag.is_none() && e.variants.iter().all(|v| v.fields.is_none()),
+            Item::Conv(_) => false,
+        }
+    }
+    fn ty_ok(cat: &Catalogue, t: &Ty, seen: &mut Vec<usize>) -> bool {
+        match t {
+            Ty::Sc(_) | Ty::Json | Ty::Phantom | Ty::Cs(_) => true,
+            Ty::P(t) | Ty::Opt(t) | Ty::Bx(t) | Ty::Vec(t) | Ty::HSet(t) | Ty::BSet(t) | Ty::Arr(t, _) => ty_ok(cat, t, seen),
+            Ty::Tup(ts) => ts.iter().all(|t| ty_ok(cat, t, seen)),
+            Ty::Map { val, .. } => ty_ok(cat, val, seen),
+            Ty::Item(i) => item_ok(cat, *i, seen),
+        }
+    }
+    let keep: Vec<bool> = cat.roots.iter().map(|r| ty_ok(&cat, &r.ty, &mut vec![])).collect();
+    let mut n = 0;
+    cat.roots.retain(|_| {
+        n += 1;
+        keep[n - 1]
+    });
     cat
 }
 
